@@ -307,6 +307,11 @@ func evalSet(ee *exprEval, assign Scope, x *sysl.Expr_Set) *sysl.Value {
 		for _, s := range x.Set.Expr {
 			AppendItemToValueList(setResult.GetSet(), Eval(ee, assign, s))
 		}
+		// a set holds an element once, however often the literal names it
+		switch getContainedType(setResult) {
+		case ValueInt, ValueString, ValueMap:
+			return setUnion(setResult, MakeValueSet())
+		}
 		return setResult
 	}
 }
